@@ -2133,23 +2133,9 @@ impl Ord for OwnedTerm {
                     }
                 }
                 (
-                    OwnedTerm::ImproperList {
-                        elements: a,
-                        tail: ta,
-                    },
-                    OwnedTerm::ImproperList {
-                        elements: b,
-                        tail: tb,
-                    },
-                ) => {
-                    for (x, y) in a.iter().zip(b.iter()) {
-                        match x.cmp(y) {
-                            Ordering::Equal => continue,
-                            other => return other,
-                        }
-                    }
-                    a.len().cmp(&b.len()).then_with(|| ta.cmp(tb))
-                }
+                    OwnedTerm::Nil | OwnedTerm::List(_) | OwnedTerm::ImproperList { .. },
+                    OwnedTerm::Nil | OwnedTerm::List(_) | OwnedTerm::ImproperList { .. },
+                ) => compare_lists(self, other),
                 (OwnedTerm::Binary(a), OwnedTerm::Binary(b)) => a.cmp(b),
                 (OwnedTerm::String(a), OwnedTerm::String(b)) => a.cmp(b),
                 (OwnedTerm::Binary(a), OwnedTerm::String(b)) => a.as_slice().cmp(b.as_bytes()),
@@ -2164,6 +2150,19 @@ impl Ord for OwnedTerm {
                         bits: bbits,
                     },
                 ) => a.cmp(b).then_with(|| abits.cmp(bbits)),
+                // a binary is a bit string whose last byte has all 8 bits in use
+                (OwnedTerm::Binary(a), OwnedTerm::BitBinary { bytes: b, bits }) => {
+                    a.cmp(b).then_with(|| 8.cmp(bits))
+                }
+                (OwnedTerm::BitBinary { bytes: a, bits }, OwnedTerm::Binary(b)) => {
+                    a.cmp(b).then_with(|| bits.cmp(&8))
+                }
+                (OwnedTerm::String(a), OwnedTerm::BitBinary { bytes: b, bits }) => {
+                    a.as_bytes().cmp(b.as_slice()).then_with(|| 8.cmp(bits))
+                }
+                (OwnedTerm::BitBinary { bytes: a, bits }, OwnedTerm::String(b)) => {
+                    a.as_slice().cmp(b.as_bytes()).then_with(|| bits.cmp(&8))
+                }
                 _ => Ordering::Equal,
             },
             other => other,
@@ -2675,6 +2674,79 @@ pub(crate) fn compare_magnitude_float(digits: &[u8], f: f64) -> Ordering {
 
 fn compare_float_bigint(f: f64, big: &BigInt) -> Ordering {
     compare_bigint_float(big, f).reverse()
+}
+
+/// Walks the elements of a list-like term (`Nil`, `List`, `ImproperList`), following
+/// list-valued tails, so that `[1 | [2]]` and `[1, 2]` are seen as the same list.
+struct ListCursor<'a> {
+    elements: &'a [OwnedTerm],
+    tail: Option<&'a OwnedTerm>,
+}
+
+impl<'a> ListCursor<'a> {
+    fn new(term: &'a OwnedTerm) -> Self {
+        ListCursor {
+            elements: &[],
+            tail: Some(term),
+        }
+    }
+
+    fn next(&mut self) -> Option<&'a OwnedTerm> {
+        loop {
+            if let Some((first, rest)) = self.elements.split_first() {
+                self.elements = rest;
+                return Some(first);
+            }
+            match self.tail.take() {
+                Some(OwnedTerm::List(elements)) => self.elements = elements,
+                Some(OwnedTerm::ImproperList { elements, tail }) => {
+                    self.elements = elements;
+                    self.tail = Some(tail);
+                }
+                Some(OwnedTerm::Nil) | None => return None,
+                Some(improper_tail) => {
+                    self.tail = Some(improper_tail);
+                    return None;
+                }
+            }
+        }
+    }
+}
+
+/// Erlang list comparison: element-wise, then the remainders are compared as terms
+/// (a proper end is `[]`, which sorts before any non-empty list).
+fn compare_lists(a: &OwnedTerm, b: &OwnedTerm) -> Ordering {
+    const LIST_ORDER: u8 = 8;
+    let mut x = ListCursor::new(a);
+    let mut y = ListCursor::new(b);
+    loop {
+        match (x.next(), y.next()) {
+            (Some(p), Some(q)) => match p.cmp(q) {
+                Ordering::Equal => continue,
+                other => return other,
+            },
+            (None, None) => {
+                return match (x.tail, y.tail) {
+                    (None, None) => Ordering::Equal,
+                    (None, Some(t)) => LIST_ORDER.cmp(&term_type_order(t)),
+                    (Some(t), None) => term_type_order(t).cmp(&LIST_ORDER),
+                    (Some(s), Some(t)) => s.cmp(t),
+                };
+            }
+            (None, Some(_)) => {
+                return match x.tail {
+                    None => Ordering::Less,
+                    Some(t) => term_type_order(t).cmp(&LIST_ORDER),
+                };
+            }
+            (Some(_), None) => {
+                return match y.tail {
+                    None => Ordering::Greater,
+                    Some(t) => LIST_ORDER.cmp(&term_type_order(t)),
+                };
+            }
+        }
+    }
 }
 
 fn compare_term_lists(a: &[OwnedTerm], b: &[OwnedTerm]) -> Ordering {
